@@ -1,13 +1,14 @@
 """C10 — transposition shifts every pitch, key and chord by the same interval (DESIGN 6.10)."""
 import ast
 import copy
+import re
 
 from gen.translit import FnTranslator, Untranslatable
 from harness import nswire
 from harness.common import MachineryError, corpus_cases, lean_int, lean_list, lean_str, wl
 
 PID = 'C10'
-MODULES = ['NoteSeqVerif.Props.C10']
+MODULES = ['NoteSeqVerif.Props.C10', 'NoteSeqVerif.Props.C10Events']
 EXE = 'drv_c10'
 THEOREMS = [
     ('NoteSeqVerif.Props.C10', 'NSV.C10.' + t) for t in [
@@ -19,7 +20,14 @@ THEOREMS = [
         'transpose_key_range', 'clamp_transpose_in_bounds', 'augment_deletes_nothing',
         'melody_transpose_fold', 'melody_transpose_special', 'melody_transpose_exact', 'melody_transpose_events',
         'melody_transpose_inverse', 'major_key_range', 'squash_spec',
-        'chord_progression_transpose_spec', 'lead_sheet_transpose_spec']]
+        'chord_progression_transpose_spec', 'lead_sheet_transpose_spec']] + [
+    # event by event: the loop of ChordProgression.transpose is List.map / List.mapM of its one-event body
+    ('NoteSeqVerif.Props.C10Events', 'NSV.C10.' + t) for t in [
+        'transposeSym_mod', 'cpEvent_mod', 'cpEvent_figure', 'cpLoop_cons', 'cpLoop_mapM',
+        'chord_progression_transpose_mapM', 'chord_progression_transpose_map', 'figRel_split',
+        'chord_progression_transpose_ok', 'chord_progression_transpose_event', 'chord_progression_transpose_append',
+        'lead_sheet_transpose_together', 'lead_sheet_squash_together',
+        'render_ne_no_chord', 'chord_progression_round_trip']]
 
 STEPS = 'ABCDEFG'
 
@@ -238,16 +246,39 @@ def _ser(m):
     return m.SerializeToString(deterministic=True)
 
 
-def oracle_tns(sl, csl, ns, k, mn, mx, tc):
-    """transpose_note_sequence against the property statement (in_place=False)"""
+def call_tns(sl, ns, k, mn, mx, tc, dflt=False, in_place=False):
+    """the real call.  `dflt`: the allowed range is left to the default arguments (the caller passes the
+    MIDI range 0..127 as mn/mx, which is what the statement's "allowed range" is when none is given);
+    `in_place`: the sequence handed in is a private copy, which must be the object that comes back"""
+    from note_seq.protobuf import music_pb2
+    arg = ns
+    if in_place:
+        arg = music_pb2.NoteSequence()
+        arg.CopyFrom(ns)
+    kw = {'transpose_chords': tc}
+    if in_place:
+        kw['in_place'] = True
+    if dflt:
+        out, deleted = sl.transpose_note_sequence(arg, k, **kw)
+    else:
+        out, deleted = sl.transpose_note_sequence(arg, k, mn, mx, **kw)
+    return out, deleted, (out is arg)
+
+
+def oracle_tns(sl, csl, ns, k, mn, mx, tc, dflt=False, in_place=False):
+    """transpose_note_sequence against the property statement (also with the default range and in place)"""
     from note_seq import constants
     from note_seq.protobuf import music_pb2
     CH, NC = sl.CHORD_SYMBOL, constants.NO_CHORD
+    if dflt and (mn, mx) != (constants.MIN_MIDI_PITCH, constants.MAX_MIDI_PITCH):
+        raise MachineryError('default-range call with a range other than the MIDI range')
     chords = [ta.text for ta in ns.text_annotations if ta.annotation_type == CH and ta.text != NC]
     v0 = {tx: values(csl, tx) for tx in set(chords)}
     bad = [tx for tx in chords if isinstance(v0[tx][0], str)]
     try:
-        out, deleted = sl.transpose_note_sequence(ns, k, mn, mx, tc)
+        out, deleted, same = call_tns(sl, ns, k, mn, mx, tc, dflt, in_place)
+        if in_place and not same:
+            return 'in_place=True returned another object than the sequence it was given'
     except csl.ChordSymbolError:
         if tc and bad:
             return None
@@ -320,17 +351,25 @@ def oracle_tns(sl, csl, ns, k, mn, mx, tc):
     return None
 
 
-def run_melody(ml, events, k, mn, mx):
+def mel_args(k, mn, mx, dflt):
+    """positional arguments of Melody.transpose / LeadSheet.transpose; `dflt`: the range [0, 128) is left to
+    the default arguments"""
+    if dflt and (mn, mx) != (0, 128):
+        raise MachineryError('default-range call with a range other than [0, 128)')
+    return (k,) if dflt else (k, mn, mx)
+
+
+def run_melody(ml, events, k, mn, mx, dflt=False):
     m = ml.Melody(list(events))
-    m.transpose(k, mn, mx)
+    m.transpose(*mel_args(k, mn, mx, dflt))
     return [int(e) for e in m]
 
 
-def oracle_mel(ml, events, k, mn, mx):
+def oracle_mel(ml, events, k, mn, mx, dflt=False):
     if mx - mn < 12:
         return None
     try:
-        out = run_melody(ml, events, k, mn, mx)
+        out = run_melody(ml, events, k, mn, mx, dflt)
         if len(out) != len(events):
             return 'melody length changed'
         for a, b in zip(events, out):
@@ -339,6 +378,8 @@ def oracle_mel(ml, events, k, mn, mx):
                     return 'special event %d became %d' % (a, b)
             elif not (mn <= b < mx and (b - a - k) % 12 == 0):
                 return 'event %d transposed by %d into [%d, %d) became %d' % (a, k, mn, mx, b)
+            elif mn <= a + k < mx and b != a + k:
+                return 'event %d moved by %d lies in [%d, %d) and needs no folding, but became %d' % (a, k, mn, mx, b)
         if mn >= 0:
             m = ml.Melody(list(events))
             m.transpose(k, mn, mx)
@@ -380,6 +421,8 @@ def oracle_squash(ml, events, mn, mx, key):
                     return 'special event %d became %d' % (x, y)
             elif not (mn <= y < mx and (y - x - a) % 12 == 0):
                 return 'event %d squashed (amount %d) into [%d, %d) became %d' % (x, a, mn, mx, y)
+            elif mn <= x + a < mx and y != x + a:
+                return 'event %d squashed by %d lies in [%d, %d) and needs no folding, but became %d' % (x, a, mn, mx, y)
     except Exception as e:  # pylint: disable=broad-except
         return 'implementation raised %s: %s' % (type(e).__name__, e)
     return None
@@ -433,12 +476,16 @@ def oracle_cp(cl, csl, figs, k):
         return 'implementation raised %s: %s' % (type(e).__name__, e)
 
 
-def run_ls(ml, cl, lsl, csl, events, figs, op, args):
+def run_ls(ml, cl, lsl, csl, events, figs, op, args, dflt=False, then=None):
+    """LeadSheet.transpose (op 'ls', args (k, min, max)) or LeadSheet.squash (op 'lsq', args (min, max, key));
+    `then`: a second LeadSheet.transpose amount applied to the same object (round trips)"""
     ls = lsl.LeadSheet(ml.Melody(list(events)), cl.ChordProgression(list(figs)))
     amount = None
     try:
         if op == 'ls':
-            ls.transpose(*args)
+            ls.transpose(*mel_args(args[0], args[1], args[2], dflt))
+            if then is not None:
+                ls.transpose(*mel_args(then, args[1], args[2], dflt))
         else:
             amount = int(ls.squash(*args))
         st = 'ok'
@@ -449,9 +496,9 @@ def run_ls(ml, cl, lsl, csl, events, figs, op, args):
     return st, amount, [int(e) for e in ls.melody], list(ls.chords)
 
 
-def oracle_ls(ml, cl, lsl, csl, events, figs, op, args):
+def oracle_ls(ml, cl, lsl, csl, events, figs, op, args, dflt=False):
     try:
-        st, amount, ev, ch = run_ls(ml, cl, lsl, csl, events, figs, op, args)
+        st, amount, ev, ch = run_ls(ml, cl, lsl, csl, events, figs, op, args, dflt)
         if op == 'ls':
             k, mn, mx = args
         else:
@@ -477,6 +524,19 @@ def oracle_ls(ml, cl, lsl, csl, events, figs, op, args):
                         return 'special event %d became %d' % (a, b)
                 elif not (mn <= b < mx and (b - a - k) % 12 == 0):
                     return 'lead sheet melody event %d (amount %d, range [%d, %d)) became %d' % (a, k, mn, mx, b)
+                elif mn <= a + k < mx and b != a + k:
+                    return 'lead sheet melody event %d moved by %d lies in [%d, %d) and needs no folding, but became %d' % (a, k, mn, mx, b)
+        if op == 'ls':
+            # k then -k on the same lead sheet: every chord back on its root / bass / pitch classes / quality,
+            # every pitch back on its pitch class (ranges with min >= 0, so that a folded pitch is still a pitch)
+            st2, _, ev2, ch2 = run_ls(ml, cl, lsl, csl, events, figs, op, args, dflt, then=-k)
+            r = oracle_figs(csl, figs, ch2, 0, st2, 'lead sheet by %d then by %d' % (k, -k))
+            if r:
+                return r
+            if mx - mn >= 12 and mn >= 0:
+                for a, b in zip(events, ev2):
+                    if (a < 0 and b != a) or (a >= 0 and (b < 0 or (b - a) % 12)):
+                        return 'lead sheet by %d then by %d: melody event %d became %d' % (k, -k, a, b)
     except Exception as e:  # pylint: disable=broad-except
         return 'implementation raised %s: %s' % (type(e).__name__, e)
     return None
@@ -577,9 +637,10 @@ def gen_k(rng):
     return rng.randint(-12, 12) if r < 0.55 else rng.choice([0, 12, -12, 24, -24, 1, -1, 11, -11, 127, -127]) if r < 0.7 else rng.randint(-127, 127)
 
 
-def gen_tns(rng, kinds):
+def gen_tns(rng, kinds, csl=None):
     """NoteSequence + (k, min, max, transpose_chords): pitched and drum notes at the range edges, key
-    signatures, chord / N.C. / other annotations, sometimes an uninterpretable chord"""
+    signatures, chord / N.C. / other annotations, sometimes an uninterpretable chord; consecutive notes,
+    key signatures and chord annotations that are exactly `k` apart (each equals what its predecessor becomes)"""
     hist = set()
     ns = nswire.NSGen(rng, max_notes=rng.choice([0, 2, 6, 12, 25])).make(texts=False)
     r = rng.random()
@@ -601,10 +662,15 @@ def gen_tns(rng, kinds):
         hist.add('range:beyond-midi')
     k = gen_k(rng)
     edges = [p for p in (mn - k - 1, mn - k, mn - k + 1, mx - k - 1, mx - k, mx - k + 1) if 0 <= p <= 127]
+    prev_pitch = None
     for n in ns.notes:
         if edges and rng.random() < 0.55:
             n.pitch = rng.choice(edges)
             hist.add('drum-at-edge' if n.is_drum else 'pitched-at-edge')
+        elif prev_pitch is not None and 0 <= prev_pitch + k <= 127 and rng.random() < 0.25:
+            n.pitch = prev_pitch + k
+            hist.add('note=transposed-predecessor')
+        prev_pitch = n.pitch
         if not n.is_drum:
             hist.add('kept' if mn <= n.pitch + k <= mx else 'deleted')
         else:
@@ -612,10 +678,14 @@ def gen_tns(rng, kinds):
     for _ in range(rng.choice([0, 0, 1, 2])):
         x = ns.key_signatures.add()
         x.time, x.key, x.mode = rng.choice([0.0, 1.5, 4.0]), rng.randrange(12), rng.choice([0, 1])
+        if len(ns.key_signatures) > 1 and rng.random() < 0.5:
+            x.key = (ns.key_signatures[len(ns.key_signatures) - 2].key + k) % 12
+            hist.add('keysig=transposed-predecessor')
     if ns.key_signatures:
         hist.add('keysig')
     malformed = rng.random() < 0.1
-    for _ in range(rng.choice([0, 1, 2, 3, 5])):
+    prev_chord = None
+    for _ in range(rng.choice([0, 1, 2, 3, 5, 8])):
         x = ns.text_annotations.add()
         x.time = rng.choice([0.0, 0.5, 2.0, rng.uniform(0, 8)])
         x.quantized_step = rng.choice([0, 0, 3])
@@ -623,6 +693,14 @@ def gen_tns(rng, kinds):
             x.annotation_type = 1
             r = rng.random()
             x.text = 'N.C.' if r < 0.15 else rng.choice(MALFORMED) if (malformed and r < 0.5) else gen_figure(rng, kinds)
+            r = rng.random()
+            if csl is not None and prev_chord is not None and x.text != 'N.C.' and r < 0.45:
+                rel = prev_chord if r < 0.1 else related_figure(rng, csl, prev_chord, k if r < 0.38 else -k)
+                if rel is not None:
+                    x.text = rel
+                    hist.add('ann=predecessor' if r < 0.1 else 'ann=transposed-predecessor' if r < 0.38 else 'ann:k-below-predecessor')
+            if x.text != 'N.C.':
+                prev_chord = x.text
             hist.add('ann:N.C.' if x.text == 'N.C.' else 'ann:chord')
         else:
             x.annotation_type = rng.choice([0, 2])
@@ -638,23 +716,35 @@ def tns_request(csl, ns, k, mn, mx, tc):
     return 'tns %d %d %d %d %s %s' % (k, mn, mx, 1 if tc else 0, table_tokens(csl, texts), nswire.encode(ns))
 
 
-def tns_impl(sl, ns, k, mn, mx, tc):
+def tns_impl(sl, ns, k, mn, mx, tc, dflt=False, in_place=False):
     try:
-        out, d = sl.transpose_note_sequence(ns, k, mn, mx, tc)
+        out, d, _ = call_tns(sl, ns, k, mn, mx, tc, dflt, in_place)
     except Exception as e:  # pylint: disable=broad-except
         return 'err ' + type(e).__name__
     return 'ok %d %s' % (d, nswire.encode(out))
 
 
-def gen_events(rng):
+def gen_events(rng, k=None):
+    """melody events; with `k`: some pitches exactly `k` above their predecessor (each equals what the
+    predecessor becomes when nothing is folded)"""
     n = rng.choice([0, 1, 3, 8, 16])
     lo = rng.randrange(0, 110)
     hi = rng.randrange(lo, 128)
-    return [rng.choice([-2, -2, -1, rng.randint(lo, hi), rng.randint(lo, hi), rng.randrange(128)]) for _ in range(n)]
+    ev = [rng.choice([-2, -2, -1, rng.randint(lo, hi), rng.randint(lo, hi), rng.randrange(128)]) for _ in range(n)]
+    if k is not None and rng.random() < 0.4:
+        last = None
+        for i, e in enumerate(ev):
+            if e >= 0 and last is not None and 0 <= last + k <= 127 and rng.random() < 0.5:
+                ev[i] = last + k
+            if ev[i] >= 0:
+                last = ev[i]
+    return ev
 
 
 def gen_range(rng):
     r = rng.random()
+    if r < 0.1:
+        return 0, 128                                 # the default range of Melody / LeadSheet.transpose
     if r < 0.75:
         mn = rng.randrange(0, 117)
         return mn, rng.randint(mn + 12, 128)
@@ -677,6 +767,114 @@ def gen_figs(rng, kinds, n):
             cur = 'N.C.' if r < 0.2 else rng.choice(MALFORMED) if (bad and r < 0.35) else gen_figure(rng, kinds)
         out.append(cur)
     return out
+
+
+_SHARP = ['C', 'C#', 'D', 'D#', 'E', 'F', 'F#', 'G', 'G#', 'A', 'A#', 'B']
+_FLAT = ['C', 'Db', 'D', 'Eb', 'E', 'F', 'Gb', 'G', 'Ab', 'A', 'Bb', 'B']
+_NATURAL = {'C': 0, 'D': 2, 'E': 4, 'F': 5, 'G': 7, 'A': 9, 'B': 11}
+_PC_RE = re.compile(r'([A-G])(#*|b*)')
+
+
+def own_transpose(rng, fig, k):
+    """the harness' own guess at the figure `k` semitones above `fig`: root and slash bass respelled from a
+    sharp or a flat table, the rest copied (None if `fig` does not start with a pitch class).  Only used to
+    PLACE figures next to each other that are `k` apart; nothing is checked against it."""
+    m = _PC_RE.match(fig)
+    if not m:
+        return None
+    names = rng.choice([_SHARP, _FLAT])
+
+    def up(mm):
+        return names[(_NATURAL[mm.group(1)] + len(mm.group(2)) * (1 if mm.group(2).startswith('#') else -1) + k) % 12]
+    rest = fig[m.end():]
+    body, slash, bass = rest.rpartition('/')
+    mb = _PC_RE.fullmatch(bass) if slash else None
+    if mb:
+        rest = body + '/' + up(mb)
+    return up(m) + rest
+
+
+def related_figure(rng, csl, fig, k):
+    """a figure that stands `k` semitones above `fig`: the string the real transpose_chord_symbol returns
+    (so that an event can EQUAL the transposed figure of another event), or the harness' own respelling"""
+    if rng.random() < 0.75:
+        try:
+            return csl.transpose_chord_symbol(fig, k % 12)
+        except Exception:  # pylint: disable=broad-except
+            pass
+    return own_transpose(rng, fig, k)
+
+
+def gen_progression(rng, csl, kinds, n, k):
+    """chord events for ChordProgression / LeadSheet, built as a walk in which an event is, relative to the
+    events before it: held, N.C., `k` above the previous chord (so that it equals that chord's transposed
+    figure: ladders by tones for k=2, the cycle of fifths for k=7, ...), `k` below it, `k` above ANY earlier
+    chord, an enharmonic respelling, an earlier figure again, or a fresh figure of the grammar.
+    Returns (figures, tags)."""
+    tags = set()
+    mode = rng.random()
+    ladder_only = mode < 0.2          # nothing but steps of k, holds and N.C.
+    bad = mode > 0.88
+    simple = rng.random() < 0.5       # short everyday figures (C, Am7, G7/B) rather than the wild grammar
+
+    def fresh():
+        if simple:
+            return rng.choice(_SHARP + _FLAT) + rng.choice(['', 'm', '7', 'm7', 'maj7', 'dim', 'sus4', '6']) + rng.choice(['', '', '', '/' + rng.choice(_SHARP + _FLAT)])
+        return gen_figure(rng, kinds)
+    out, chords = [], []
+    for i in range(n):
+        r = rng.random()
+        fig, tag = None, None
+        prev = chords[-1] if chords else None
+        if prev is None or (not ladder_only and r < 0.2):
+            fig, tag = fresh(), 'fresh'
+        elif r < 0.4 if not ladder_only else r < 0.2:
+            fig, tag = out[-1], 'held'
+        elif r < 0.5 if not ladder_only else r < 0.3:
+            fig, tag = 'N.C.', 'N.C.'
+        elif r < 0.75 if not ladder_only else True:
+            fig, tag = related_figure(rng, csl, prev, k), 'k-above-previous-chord'
+        elif r < 0.82:
+            fig, tag = related_figure(rng, csl, prev, -k), 'k-below-previous-chord'
+        elif r < 0.9:
+            fig, tag = related_figure(rng, csl, rng.choice(chords), k), 'k-above-earlier-chord'
+        elif r < 0.94:
+            fig, tag = own_transpose(rng, prev, 0), 'respelled-previous-chord'
+        elif bad and r >= 0.96:
+            fig, tag = rng.choice(MALFORMED), 'malformed'
+        else:
+            fig, tag = rng.choice(chords), 'earlier-figure-again'
+        if fig is None:
+            fig, tag = fresh(), 'fresh'
+        out.append(fig)
+        tags.add(tag)
+        if fig != 'N.C.':
+            chords.append(fig)
+    return out, tags
+
+
+def coincidence_tags(figs, out):
+    """the coincidences the event-by-event statement is about, read off the input events and the events
+    the real code produced: an event equal to the TRANSPOSED figure of its predecessor / of an earlier event"""
+    tags = set()
+    for i in range(1, min(len(figs), len(out))):
+        if figs[i] == 'N.C.':
+            continue
+        if figs[i] == out[i - 1] and figs[i] != figs[i - 1]:
+            tags.add('event=transposed-predecessor')
+        elif any(figs[i] == out[j] and figs[i] != figs[j] for j in range(i - 1)):
+            tags.add('event=transposed-earlier-event')
+        if figs[i] == figs[i - 1]:
+            tags.add('event=predecessor')
+    return tags
+
+
+def cp_request(csl, figs, k):
+    return 'cp %d %s %s' % (k, table_tokens(csl, [f for f in figs if f != 'N.C.']), wl(hx(f) for f in figs))
+
+
+def ls_request(csl, events, figs, k, mn, mx):
+    return 'ls %d %d %d %s %s %s' % (k, mn, mx, table_tokens(csl, [f for f in figs if f != 'N.C.']), wl(events), wl(hx(f) for f in figs))
 
 
 def sym_request(st, ks):
@@ -779,8 +977,13 @@ def run(chk):
                 'MIDI) x transpose_chords; (2) chord grammar: 35 root spellings x every kind abbreviation of the table x %d modification strings x '
                 '%d basses x k in -12..12 (thorough: whole product; quick: seeded sample) plus wild spellings / k up to +-127; '
                 '_transpose_pitch_class on 7 steps x alter -6..6 x k; (3) melodies x (min,max) x k, squash, get_major_key; '
-                '(4) ChordProgression / LeadSheet transpose and squash incl. N.C. and unknown symbols; (5) _clamp_transpose and '
-                'augment_note_sequence with the random module replaced. non-trivial = distinct request answered by the model (not bad-op)'
+                '(4) ChordProgression / LeadSheet transpose and squash on progressions built as walks whose steps are: held, N.C., '
+                'k above / below the previous chord (the event EQUALS the transposed figure of its predecessor: tone ladders, cycle of '
+                'fifths), k above any earlier chord, respelled, an earlier figure again, fresh, unknown symbol; the call back by -k goes '
+                'through the model too; (5) _clamp_transpose and augment_note_sequence with the random module replaced; every public entry '
+                'point also as the caller can reach it: transpose_note_sequence in_place=True and with the default range, '
+                'Melody/LeadSheet.transpose with the default range, note_seq.transpose_chord_symbol. '
+                'non-trivial = distinct request answered by the model (not bad-op)'
                 % (len(MODS), len(BASSES)))
     kinds = list(csl._CHORD_KINDS_BY_ABBREV)
     B = Batch(chk)
@@ -796,13 +999,21 @@ def run(chk):
         if obj.get('kind') == 'tns':
             ns = nswire.decode(obj['sequence'])
             a = (obj['k'], obj['min'], obj['max'], obj['transpose_chords'])
-            B.add('corpus', tns_request(csl, ns, *a), tns_impl(sl, ns, *a), 'm:' + name, 'tns-model', replay=obj)
+            B.add('corpus', tns_request(csl, ns, *a), tns_impl(sl, ns, *a, obj.get('defaults', False), obj.get('in_place', False)),
+                  'm:' + name, 'tns-model', replay=obj)
+        elif obj.get('kind') == 'cp':
+            st, out = run_cp(cl, csl, obj['figures'], obj['k'])
+            B.add('corpus', cp_request(csl, obj['figures'], obj['k']), '%s %s' % (st, wl(hx(f) for f in out)), 'm:' + name, 'cp-model', replay=obj)
+        elif obj.get('kind') == 'ls':
+            st, _, ev2, ch2 = run_ls(ml, cl, lsl, csl, obj['events'], obj['figures'], 'ls', tuple(obj['args']), obj.get('defaults', False))
+            B.add('corpus', ls_request(csl, obj['events'], obj['figures'], *obj['args']), '%s %s %s' % (st, wl(ev2), wl(hx(f) for f in ch2)),
+                  'm:' + name, 'ls-model', replay=obj)
         elif obj.get('kind') == 'sym' and cache.get(obj['figure'])[0] is not None:
             ks = [obj['k']] if 'k' in obj else obj['ks']
             B.add('corpus', sym_request(cache.get(obj['figure'])[0], ks), sym_impl(csl, cache, obj['figure'], ks)[0], 'm:' + name, 'sym-model', replay=obj)
         elif obj.get('kind') == 'mel':
             B.add('corpus', 'mel %d %d %d %s' % (obj['k'], obj['min'], obj['max'], wl(obj['events'])),
-                  'ok ' + wl(run_melody(ml, obj['events'], obj['k'], obj['min'], obj['max'])), 'm:' + name, 'mel-model', replay=obj)
+                  'ok ' + wl(run_melody(ml, obj['events'], obj['k'], obj['min'], obj['max'], obj.get('defaults', False))), 'm:' + name, 'mel-model', replay=obj)
     B.flush()
 
     # ---- (2a) _transpose_pitch_class directly
@@ -864,47 +1075,67 @@ def run(chk):
     B.flush()
     cache.clear()
 
-    # ---- (1) transpose_note_sequence
+    # ---- (1) transpose_note_sequence: in_place=False with an explicit range; every third input also through
+    #      in_place=True (on a private copy) and, when the range is the MIDI range, through the default arguments
+    from note_seq import constants as K
     rng = chk.subrng('tns')
     for i in range(chk.n(1200, 30000)):
-        ns, k, mn, mx, tc, hist = gen_tns(rng, kinds)
+        ns, k, mn, mx, tc, hist = gen_tns(rng, kinds, csl)
         req = tns_request(csl, ns, k, mn, mx, tc)
         before = _ser(ns)
-        impl = tns_impl(sl, ns, k, mn, mx, tc)
-        hist.add('result:' + ' '.join(impl.split()[:2]) if impl.startswith('err') else 'result:ok')
-        if impl.startswith('ok') and int(impl.split()[1]) > 0:
-            hist.add('deleted>0')
-        replay = {'kind': 'tns', 'k': k, 'min': mn, 'max': mx, 'transpose_chords': tc, 'sequence': nswire.encode(ns)}
-        B.add('transpose_note_sequence', req, impl, req[:3000], sorted(hist), replay=replay)
-        r = oracle_tns(sl, csl, ns, k, mn, mx, tc)
-        if not r and _ser(ns) != before:
-            r = 'transpose_note_sequence(in_place=False) modified its argument'
-        chk.count('oracle', None)
-        if r:
-            _fail(chk, r, replay)
+        variants = [(False, False)]
+        if i % 3 == 0:
+            variants.append((False, True))
+        if (mn, mx) == (K.MIN_MIDI_PITCH, K.MAX_MIDI_PITCH):
+            variants.append((True, i % 2 == 0))
+        for dflt, inpl in variants:
+            impl = tns_impl(sl, ns, k, mn, mx, tc, dflt, inpl)
+            h = set(hist)
+            h.add('result:' + ' '.join(impl.split()[:2]) if impl.startswith('err') else 'result:ok')
+            if impl.startswith('ok') and int(impl.split()[1]) > 0:
+                h.add('deleted>0')
+            replay = {'kind': 'tns', 'k': k, 'min': mn, 'max': mx, 'transpose_chords': tc, 'sequence': nswire.encode(ns)}
+            if dflt:
+                replay['defaults'] = True
+            if inpl:
+                replay['in_place'] = True
+            stream = 'transpose_note_sequence' + ('_default_range' if dflt else '') + ('_in_place' if inpl else '')
+            B.add(stream, req, impl, req[:3000], sorted(h), replay=replay)
+            r = oracle_tns(sl, csl, ns, k, mn, mx, tc, dflt, inpl)
+            if not r and _ser(ns) != before:
+                r = 'transpose_note_sequence modified a sequence it was not given (in_place=%s)' % inpl
+            chk.count('oracle', None)
+            if r:
+                _fail(chk, r, replay)
     B.flush()
 
     # ---- (3) melodies
     rng = chk.subrng('melody')
     for i in range(chk.n(2500, 60000)):
-        raw = gen_events(rng)
-        mn, mx = gen_range(rng)
         k = gen_k(rng)
-        hist = ['range:' + ('valid' if mx - mn >= 12 else 'narrow'), 'min:' + ('negative' if mn < 0 else 'nonneg')]
+        raw = gen_events(rng, k)
+        mn, mx = gen_range(rng)
+        dflt = (mn, mx) == (0, 128)                    # then the range is left to the default arguments
+        hist = ['range:' + ('default-arguments' if dflt else 'valid' if mx - mn >= 12 else 'narrow'), 'min:' + ('negative' if mn < 0 else 'nonneg')]
         edges = [t - k for t in (mn - 1, mn, mn + 1, mx - 1, mx, mx + 1) if 0 <= t - k <= 127]
         if raw and edges and rng.random() < 0.5:       # pitches that land exactly on / next to the range limits
             for _ in range(rng.choice([1, 2])):
                 raw[rng.randrange(len(raw))] = rng.choice(edges)
             hist.append('event-at-range-edge')
         ev = [int(e) for e in ml.Melody(raw)]          # the constructor turns leading note-offs into no-events
-        out = run_melody(ml, ev, k, mn, mx)
+        out = run_melody(ml, ev, k, mn, mx, dflt)
         if any(a >= 0 and b != a + k for a, b in zip(ev, out)):
             hist.append('folded')
-        B.add('melody_transpose', 'mel %d %d %d %s' % (k, mn, mx, wl(ev)), 'ok ' + wl(out), (k, mn, mx, tuple(ev)), hist)
-        r = oracle_mel(ml, ev, k, mn, mx)
+        if any(b >= 0 and b == o and a != b for a, b, o in zip(ev, ev[1:], out)):
+            hist.append('event=transposed-predecessor')
+        rp = {'kind': 'mel', 'events': ev, 'k': k, 'min': mn, 'max': mx}
+        if dflt:
+            rp['defaults'] = True
+        B.add('melody_transpose', 'mel %d %d %d %s' % (k, mn, mx, wl(ev)), 'ok ' + wl(out), (k, mn, mx, tuple(ev)), hist, replay=rp)
+        r = oracle_mel(ml, ev, k, mn, mx, dflt)
         chk.count('oracle', None)
         if r:
-            _fail(chk, r, {'kind': 'mel', 'events': ev, 'k': k, 'min': mn, 'max': mx})
+            _fail(chk, r, rp)
         if i % 2 == 0:
             key = rng.choice([None, None] + list(range(12)))
             a, out = run_squash(ml, ev, mn, mx, key)
@@ -916,38 +1147,76 @@ def run(chk):
                 _fail(chk, r, {'kind': 'squash', 'events': ev, 'min': mn, 'max': mx, 'key': key})
     B.flush()
 
-    # ---- (4) ChordProgression / LeadSheet
+    # ---- (4) ChordProgression / LeadSheet: every event on its own — progressions in which an event equals the
+    #      transposed figure of its predecessor / of an earlier event, held chords, N.C., unknown symbols; the
+    #      forward call and the call back by -k both go through the model
     rng = chk.subrng('chords')
-    for i in range(chk.n(1500, 30000)):
-        n = rng.choice([0, 1, 2, 4, 8])
-        figs = gen_figs(rng, kinds, n)
+    for i in range(chk.n(2500, 40000)):
+        n = rng.choice([0, 1, 2, 3, 4, 6, 8, 12])
         k = gen_k(rng)
-        tbl = table_tokens(csl, [f for f in figs if f != 'N.C.'])
+        if rng.random() < 0.3:
+            k = rng.choice([2, 7, 5, -2, 1, -1, 3, 4, 9, 14, -5, 19])      # everyday intervals (tones, fifths, fourths)
+        if i % 10 < 7:
+            figs, tags = gen_progression(rng, csl, kinds, n, k)
+        else:
+            figs, tags = gen_figs(rng, kinds, n), {'unrelated-figures'}
         st, out = run_cp(cl, csl, figs, k)
-        hist = ['status:' + st] + (['has-N.C.'] if 'N.C.' in figs else [])
-        B.add('chord_progression', 'cp %d %s %s' % (k, tbl, wl(hx(f) for f in figs)), '%s %s' % (st, wl(hx(f) for f in out)),
-              (k, tuple(figs)), hist, replay={'kind': 'cp', 'figures': figs, 'k': k})
+        hist = ['status:' + st] + (['has-N.C.'] if 'N.C.' in figs else []) + sorted('step:' + t for t in tags)
+        hist += sorted(coincidence_tags(figs, out))
+        rp = {'kind': 'cp', 'figures': figs, 'k': k}
+        B.add('chord_progression', cp_request(csl, figs, k), '%s %s' % (st, wl(hx(f) for f in out)), (k, tuple(figs)), hist, replay=rp)
+        if st == 'ok' and figs:
+            st2, back = run_cp(cl, csl, out, -k)
+            B.add('chord_progression_back', cp_request(csl, out, -k), '%s %s' % (st2, wl(hx(f) for f in back)), (-k, tuple(out)),
+                  ['status:' + st2] + sorted(coincidence_tags(out, back)), replay={'kind': 'cp', 'figures': out, 'k': -k})
         r = oracle_cp(cl, csl, figs, k)
         chk.count('oracle', None)
         if r:
-            _fail(chk, r, {'kind': 'cp', 'figures': figs, 'k': k})
+            _fail(chk, r, rp)
         if i % 2 == 0:
-            ev = [int(e) for e in ml.Melody([rng.choice([-2, -1, rng.randrange(128)]) for _ in range(n)])]
             mn, mx = gen_range(rng)
+            dflt = (mn, mx) == (0, 128)
+            raw = (gen_events(rng, k) + [rng.choice([-2, -1, rng.randrange(128)]) for _ in range(n)])[:n]
+            ev = [int(e) for e in ml.Melody(raw)]          # as long as the progression (LeadSheet demands it)
             if i % 4 == 0:
-                op, args, reqhead = 'ls', (k, mn, mx), 'ls %d %d %d' % (k, mn, mx)
+                op, args = 'ls', (k, mn, mx)
+                req = ls_request(csl, ev, figs, k, mn, mx)
             else:
                 key = rng.randrange(12)
-                op, args, reqhead = 'lsq', (mn, mx, key), 'lsq %d %d %d' % (mn, mx, key)
-            st, amount, ev2, ch2 = run_ls(ml, cl, lsl, csl, ev, figs, op, args)
+                op, args, dflt = 'lsq', (mn, mx, key), False
+                if i % 10 < 7:        # a progression whose steps are the amount this squash is going to choose
+                    try:
+                        a = int(ml.Melody(list(ev)).squash(mn, mx, key))
+                    except Exception:  # pylint: disable=broad-except
+                        a = k
+                    figs = gen_progression(rng, csl, kinds, n, a)[0]
+                req = 'lsq %d %d %d %s %s %s' % (mn, mx, key, table_tokens(csl, [f for f in figs if f != 'N.C.']), wl(ev), wl(hx(f) for f in figs))
+            st, amount, ev2, ch2 = run_ls(ml, cl, lsl, csl, ev, figs, op, args, dflt)
             impl = '%s %s%s %s' % (st, ('%s ' % ('-' if amount is None else amount)) if op == 'lsq' else '', wl(ev2), wl(hx(f) for f in ch2))
             rp = {'kind': op, 'events': ev, 'figures': figs, 'args': list(args)}
-            B.add('lead_sheet', '%s %s %s %s' % (reqhead, tbl, wl(ev), wl(hx(f) for f in figs)), impl, (op, args, tuple(ev), tuple(figs)),
-                  [op + ':' + st], replay=rp)
-            r = oracle_ls(ml, cl, lsl, csl, ev, figs, op, args)
+            if dflt:
+                rp['defaults'] = True
+            B.add('lead_sheet', req, impl, (op, args, dflt, tuple(ev), tuple(figs)),
+                  [op + ':' + st] + (['default-arguments'] if dflt else []) + sorted(op + ':' + t for t in (coincidence_tags(figs, ch2) if st == 'ok' else [])), replay=rp)
+            r = oracle_ls(ml, cl, lsl, csl, ev, figs, op, args, dflt)
             if r:
                 _fail(chk, r, rp)
     B.flush()
+
+    # ---- the package-level export is the function all of the above went through
+    import note_seq
+    same = getattr(note_seq, 'transpose_chord_symbol', None) is csl.transpose_chord_symbol
+    chk.count('exported_names', 'note_seq.transpose_chord_symbol', same, 'same-object' if same else 'other-object')
+    if not same:
+        for fig in ODD_VALID + [r + kd for r in ROOTS for kd in ('', 'm7', 'maj7/E')]:
+            for k in (1, 2, 7, -3, 12):
+                try:
+                    t = note_seq.transpose_chord_symbol(fig, k)
+                    r = oracle_values(fig, k, values(csl, fig), t, values(csl, t))
+                except Exception as e:  # pylint: disable=broad-except
+                    r = 'note_seq.transpose_chord_symbol raised %s: %s' % (type(e).__name__, e)
+                if r:
+                    _fail(chk, 'note_seq.transpose_chord_symbol (not chord_symbols_lib\'s): ' + r, {'kind': 'sym', 'figure': fig, 'k': k, 'exported': True})
 
     # ---- (5) _clamp_transpose, augment_note_sequence
     rng = chk.subrng('augment')
@@ -1005,6 +1274,15 @@ def oracle_obj(obj, verbose=False):
     if kind == 'pc':
         say('  _transpose_pitch_class ->', _val(csl, lambda f: csl._transpose_pitch_class(obj['step'], obj['alter'], obj['k']), None))
         rs = [oracle_pc(csl, obj['step'], obj['alter'], obj['k'])]
+    elif kind == 'sym' and obj.get('exported'):
+        import note_seq
+        fig, k = obj['figure'], obj['k']
+        try:
+            t = note_seq.transpose_chord_symbol(fig, k)
+            say('  note_seq.transpose_chord_symbol(%r, %d) -> %r' % (fig, k, t))
+            rs = [oracle_values(fig, k, values(csl, fig), t, values(csl, t))]
+        except Exception as e:  # pylint: disable=broad-except
+            rs = ['note_seq.transpose_chord_symbol raised %s: %s' % (type(e).__name__, e)]
     elif kind == 'sym':
         rs = []
         for k in ([obj['k']] if 'k' in obj else obj['ks']):
@@ -1012,11 +1290,13 @@ def oracle_obj(obj, verbose=False):
             rs.append(oracle_sym(csl, obj['figure'], k))
     elif kind == 'tns':
         ns = nswire.decode(obj['sequence'])
-        say('  ->', tns_impl(sl, ns, obj['k'], obj['min'], obj['max'], obj['transpose_chords'])[:400])
-        rs = [oracle_tns(sl, csl, ns, obj['k'], obj['min'], obj['max'], obj['transpose_chords'])]
+        v = (obj.get('defaults', False), obj.get('in_place', False))
+        say('  (default range: %s, in_place: %s) ->' % v, tns_impl(sl, ns, obj['k'], obj['min'], obj['max'], obj['transpose_chords'], *v)[:400])
+        rs = [oracle_tns(sl, csl, ns, obj['k'], obj['min'], obj['max'], obj['transpose_chords'], *v)]
     elif kind == 'mel':
-        rs = [oracle_mel(ml, obj['events'], obj['k'], obj['min'], obj['max'])]
-        say('  ->', _val(csl, lambda f: run_melody(ml, obj['events'], obj['k'], obj['min'], obj['max']), None))
+        d = obj.get('defaults', False)
+        rs = [oracle_mel(ml, obj['events'], obj['k'], obj['min'], obj['max'], d)]
+        say('  ->', _val(csl, lambda f: run_melody(ml, obj['events'], obj['k'], obj['min'], obj['max'], d), None))
     elif kind == 'squash':
         rs = [oracle_squash(ml, obj['events'], obj['min'], obj['max'], obj['key'])]
         say('  ->', _val(csl, lambda f: run_squash(ml, obj['events'], obj['min'], obj['max'], obj['key']), None))
@@ -1024,8 +1304,9 @@ def oracle_obj(obj, verbose=False):
         rs = [oracle_cp(cl, csl, obj['figures'], obj['k'])]
         say('  ->', _val(csl, lambda f: run_cp(cl, csl, obj['figures'], obj['k']), None))
     elif kind in ('ls', 'lsq'):
-        rs = [oracle_ls(ml, cl, lsl, csl, obj['events'], obj['figures'], kind, tuple(obj['args']))]
-        say('  ->', _val(csl, lambda f: run_ls(ml, cl, lsl, csl, obj['events'], obj['figures'], kind, tuple(obj['args'])), None))
+        d = obj.get('defaults', False)
+        rs = [oracle_ls(ml, cl, lsl, csl, obj['events'], obj['figures'], kind, tuple(obj['args']), d)]
+        say('  ->', _val(csl, lambda f: run_ls(ml, cl, lsl, csl, obj['events'], obj['figures'], kind, tuple(obj['args']), d), None))
     elif kind == 'clamp':
         rs = [oracle_clamp(sl, *obj['args'])]
         say('  ->', _val(csl, lambda f: sl._clamp_transpose(*obj['args']), None))
